@@ -474,16 +474,17 @@ PROPS = {
                            "Rodbus.C09.role_is_end_entity_role", "Rodbus.C09.roleless_end_entity_refused"],
         suites=[dict(gen="tls", n=(0, 0), jobs=16,
                      exhaustive="thorough: the full grid {min 1.2,1.3} x {authority,self-signed} x {authz,no authz} x {client,server} x peer "
-                                "versions {1.2,1.3,both} x certificate kinds (246 handshakes); quick: all version cells with valid "
-                                "certificates + half of the certificate kinds (about 50 handshakes)")],
+                                "versions {1.2,1.3,both} x certificate kinds incl. certificate lists and IP-literal expected names (336 handshakes); quick: all "
+                                "version cells with valid certificates + half of the certificate kinds + every certificate-list and IP-name cell (about 75 handshakes)")],
         level_text="Proof (rodbus's own logic): versions_correct (a version is enabled iff it is >= the configured minimum) and tls_table_correct "
                    "(the MinTlsVersion -> ProtocolVersions table regenerated from tcp/tls/client.rs equals the model's), admit_iff / "
                    "client_admit_iff (a session exists iff the peer offers a version >= min, its certificate validates under the configured mode "
                    "and - in authorization mode - carries exactly one role), role_is_certificate_role, no_role_refused, no_authz_no_role, "
-                   "negotiated_at_least_min, negotiation_succeeds, cert_accepted_meaning. Exploration (the TLS library's part): real rodbus TLS "
+                   "negotiated_at_least_min, negotiation_succeeds, cert_accepted_meaning; role_is_end_entity_role / extra_certificates_irrelevant / "
+                   "roleless_end_entity_refused (the role is read from the first certificate of the Certificate message, whatever follows it). Exploration (the TLS library's part): real rodbus TLS "
                    "servers and clients against independent openssl s_client / s_server peers restricted to TLS 1.2, 1.3 or both, with minted "
                    "certificates (valid, wrong authority, wrong name, CN-only, expired, not yet valid, role-less, other role, none, impostor "
-                   "self-signed); observed: handshake outcome, negotiated version, role string seen by the authorization handler, handler calls.",
+                   "self-signed, a second certificate with another role after the end entity, IP-literal expected names with and without IP SAN); observed: handshake outcome, negotiated version, role string seen by the authorization handler, handler calls.",
         level_note="Partial: certificate path validation, signature and validity checks, name matching and version negotiation are done by "
                    "rustls / webpki / sfio-rustls-config; in the theorems they are attributes of the presented certificate and the rule 'highest "
                    "common version'; they are exercised by the grid, not proved. A certificate with two role extensions could not be minted with "
